@@ -21,7 +21,9 @@ for every input (no bound on loop iterations or data sizes), while `sat` is only
     are cut and everything assigned inside a loop is havoc'd at the loop header); conditions of
     `switchInt` and of earlier assertions along the path are assumed;
   * assumption A1: `usize` PARAMETERS are lengths, positions or nesting depths and therefore
-    at most isize::MAX (Rust's allocation limit; the property excepts resource exhaustion).
+    at most isize::MAX (Rust's allocation limit; the property excepts resource exhaustion);
+    assumption A2: a `usize` place whose SOURCE-LEVEL name (MIR `debug` info) is `level` is an
+    indentation / nesting depth, also when it is reached through a closure capture.
 
 Verdict per site: proved | candidate.  Candidates are never reported directly:
   - a candidate listed in lib/e2_baseline.json (keyed by crate, function, message and operand
@@ -61,6 +63,8 @@ JOBS = [
      "only_fn": r"(epoch_to_timestamp|float_to_micros|timestamp_to_epoch|array_to_datetime|datetime_to_array|to_iso8601|gmtime|mktime|strftime|strptime)"},
 ]
 
+DEPTH_NAMES = ("level",)
+
 INT_W = {"i8": 8, "u8": 8, "i16": 16, "u16": 16, "i32": 32, "u32": 32, "i64": 64, "u64": 64,
          "i128": 128, "u128": 128, "isize": 64, "usize": 64, "char": 32, "bool": 1}
 
@@ -83,6 +87,7 @@ class Fn:
         self.params = []     # ["_1", ...]
         self.blocks = {}     # id -> (stmts [str], term str)
         self.order = []
+        self.debug = {}      # source-level name -> place text (from `debug NAME => PLACE;`)
 
 
 def parse_mir(text):
@@ -124,6 +129,10 @@ def parse_mir(text):
             cur = None
             continue
         s = line.strip()
+        m = re.match(r"debug (\w+) => (.*);$", s)
+        if m and blk is None:
+            cur.debug.setdefault(m.group(1), m.group(2).strip())
+            continue
         m = re.match(r"let (?:mut )?(_\d+): (.*);$", s)
         if m and blk is None:
             cur.types[m.group(1)] = m.group(2)
@@ -208,6 +217,9 @@ class Enc:
         self.env = {}        # place -> (smt term, type)
         self.n = 0
         self.havoced = []    # (name, type, origin) for counterexample display
+        self.alias = {}      # reference-typed local -> the place it was copied from
+        # assumption A2: a place whose source-level name is `level` is an indentation / nesting depth
+        self.depth_places = {self.norm(p) for n, p in fn.debug.items() if n in DEPTH_NAMES}
 
     def fresh(self, typ, origin):
         self.n += 1
@@ -233,14 +245,28 @@ class Enc:
             return re.sub(r"^&(?:'\w+ )?(?:mut )?", "", t)
         return "?"
 
-    def read(self, place):
+    def norm(self, place):
+        """resolve `(*_N)` through recorded reference copies: `_8 = copy ((*_1).2: &usize)` makes
+        `(*_8)` the same place as `(*((*_1).2: &usize))`"""
         place = place.strip()
+        for _ in range(4):
+            m = re.match(r"^\(\*(_\d+)\)$", place)
+            if m and m.group(1) in getattr(self, "alias", {}):
+                place = f"(*{self.alias[m.group(1)]})"
+            else:
+                break
+        return place
+
+    def read(self, place):
+        place = self.norm(place)
         if place in self.env:
             return self.env[place]
         typ = self.place_type(place)
+        if typ == "?" and place in self.depth_places:
+            typ = "usize"
         v = self.fresh(typ, place)
-        if v is not None and typ == "usize" and place in self.fn.params:
-            # assumption A1
+        if v is not None and typ == "usize" and (place in self.fn.params or place in self.depth_places):
+            # assumptions A1 / A2
             self.asserts.append(f"(bvule {v} #x7fffffffffffffff)")
         self.env[place] = (v, typ)
         return self.env[place]
@@ -398,6 +424,11 @@ class Enc:
     def assign(self, lhs, rhs):
         lhs = lhs.strip()
         base = re.search(r"_\d+", lhs).group(0)
+        if re.match(r"^_\d+$", lhs):
+            self.alias.pop(lhs, None)
+            m = re.match(r"^(?:no_retag )?(?:copy|move) (\(.*\))$", rhs.strip())
+            if m and self.fn.types.get(lhs, "").startswith("&"):
+                self.alias[lhs] = m.group(1)
         lt = self.place_type(lhs)
         term, typ, extra = self.rvalue(rhs, lt)
         self.kill(base) if lhs == base else self.env.pop(lhs, None)
@@ -875,6 +906,7 @@ def run_job(job, overlay, scratch):
          "functions": [], "bounds": "every arithmetic / index panic site in the MIR of " + ", ".join(job["crates"]) +
          "; all input values (bit-vectors of exact width), any number of loop iterations (loops havoc'd); acyclic paths enumerated up to 4000 per site",
          "assumptions": ["A1: usize parameters are lengths / positions / depths <= isize::MAX",
+                         "A2: a usize place whose source-level name is `level` (indentation / nesting depth, possibly a closure capture) is <= isize::MAX",
                          "callees return arbitrary values of their type, except core contracts (len, checked_*, unsigned_abs, saturating_sub, wrapping_*, min, max)",
                          "sites listed in lib/e2_baseline.json are undecided by this abstraction on the unchanged tree (they need a data-structure invariant) and are reported as undecided, not as violations"],
          "asserts": "no arithmetic overflow / division by zero / shift overflow / negation overflow / array index out of bounds can occur at the site"}
